@@ -78,4 +78,25 @@ example : ∃ items e' ds' p2, lexAll (printPrint ff0 exArg exDirs) false = .ite
     erase e' = erase exArg ∧ ds'.map eraseDir = exDirs.map eraseDir ∧ At p2 [⟨.tEOF, []⟩] :=
   print_cmd_roundtrip_bytes ff0 pf0 exArg exDirs exCmd_ok exCmd_canon Item.zero
 
+open SoyVerif.Model.FileParser (parseSource)
+
+/-- `print_cmd_file_roundtrip` without table hypotheses -/
+theorem print_cmd_file_roundtrip (ff : UInt64 → Bytes) (pf : Bytes → Option UInt64) (arg : Expr) (dirs : List Directive)
+    (hN : CmdOk ff arg dirs) (hC : CmdCanon ff pf arg dirs) :
+    ∃ pos e' ds', parseSource pf (printPrint ff arg dirs) = .ok [Node.print pos e' ds'] ∧
+      erase e' = erase arg ∧ ds'.map eraseDir = dirs.map eraseDir :=
+  SoyVerif.Props.C17c.print_cmd_file_roundtrip ff pf lexTableOK tableOK arg dirs hN hC
+
+/-- `print_cmd_file_injective` without table hypotheses -/
+theorem print_cmd_file_injective (ff : UInt64 → Bytes) (pf : Bytes → Option UInt64) (a b : Expr) (da db : List Directive)
+    (hNa : CmdOk ff a da) (hNb : CmdOk ff b db) (hCa : CmdCanon ff pf a da) (hCb : CmdCanon ff pf b db)
+    (h : parseSource pf (printPrint ff a da) = parseSource pf (printPrint ff b db)) :
+    erase a = erase b ∧ da.map eraseDir = db.map eraseDir :=
+  SoyVerif.Props.C17c.print_cmd_file_injective ff pf lexTableOK tableOK a b da db hNa hNb hCa hCb h
+
+/-- non-vacuity: the file `{$a ?: -1|truncate:$b ? 1 : 2,-3|id}` parses to the one print node -/
+example : ∃ pos e' ds', parseSource pf0 (printPrint ff0 exArg exDirs) = .ok [Node.print pos e' ds'] ∧
+    erase e' = erase exArg ∧ ds'.map eraseDir = exDirs.map eraseDir :=
+  print_cmd_file_roundtrip ff0 pf0 exArg exDirs exCmd_ok exCmd_canon
+
 end SoyVerif.Inst.C17c
